@@ -18,6 +18,7 @@ import (
 	"time"
 
 	"verifharness/lib/kit"
+	"verifharness/lib/leak"
 	"verifharness/lib/vh"
 )
 
@@ -158,6 +159,13 @@ func child() {
 			}
 			e.run(cs, rng)
 		}
+		if parts[1] == "cancel" && next() {
+			n := 16
+			if thorough {
+				n = 64
+			}
+			e.closeStress(n)
+		}
 		e.lt.finish(func(class string) string {
 			if pend[class] {
 				return "n"
@@ -185,6 +193,9 @@ func child() {
 			n = 24
 		}
 		serverBatch(rep, kit.Kind(parts[1]), n)
+	}
+	if os.Getenv("C08_DUMP") != "" {
+		fmt.Fprintln(os.Stderr, leak.Dump())
 	}
 	rep.Done()
 }
@@ -240,6 +251,12 @@ func main() {
 		}(b)
 	}
 	wg.Wait()
+	// non-vacuity: the workload must have exercised the property
+	r.Require(r.Counter("faults_delivered") >= 200, "only %d faults were delivered", r.Counter("faults_delivered"))
+	r.Require(r.Counter("errors_returned") > 0 && r.Counter("values_complete_answer") > 0 && r.Counter("ctx_errors_returned") > 0, "outcome classes missing: errors=%d values=%d ctx-errors=%d", r.Counter("errors_returned"), r.Counter("values_complete_answer"), r.Counter("ctx_errors_returned"))
+	r.Require(r.Counter("sched_races_set_up") >= 5, "only %d of 5 yield-controlled races were set up", r.Counter("sched_races_set_up"))
+	r.Require(r.Counter("server_peers_vanished_with_running_handler") > 0 && r.Counter("server_peers_vanished_with_listening_stream") > 0 && r.Counter("server_peers_vanished_with_pending_server_request") > 0, "server side: peers did not vanish with handlers / streams / server requests pending")
+	r.Require(r.Counter("stdio_clients_closed") > 0, "no stdio close stress")
 	r.Finish("cases = (client kind in {S-json, S-sse, L-sse (legacy), stdio}) x (fault kind in {close, rst, stall, truncate; kill -9 / SIGTERM / exit / SIGSTOP / close-stdout for stdio; cancel, deadline; delayed / withheld terminating chunk}) x (point: every message boundary of the exchange - before the request is forwarded, after the request, after the response headers / the 202, between SSE events, before the final event, before the terminating chunk, on the legacy stream before / after the endpoint event, while calls are pending, before / after the answer event; stdio: before the first call, while pending, between calls, before / inside / after the response line - exhaustively; byte offsets inside request, response head, body / event: first byte, last byte and seeded samples) x pending calls in {1, 2, 8}, for target = the call, the Initialize handshake, and the client's listening stream; plus yield-controlled schedules of the three known races and the server side (N, 2N peers with listening streams, running handlers and pending server requests vanish by close / FIN / RST). Oracle per call: returns within 10 s of the fault (else goroutine dump must show it parked in the library), outcome is an error or the call's own complete answer (nonce + digest + length), context errors for cancellation; per case: Close returns, pending tables empty, and goroutines with library frames / persistConn loops / fds / child processes at quiescence do not grow case after case of the same class. Distinct = (kind, target, fault@point, pending count, outcome class) with the fault actually delivered.",
 		[]string{
 			"byte offsets and cancellation instants are sampled (seeded, fixed counts); message boundaries x fault kinds x transports x pending counts are enumerated completely",
